@@ -18,6 +18,9 @@ Property theorems only; helper lemmas and the specification vocabulary live in
 * `matchCount n row` := number of `true` among the first `n` row entries;
 * `idsOf items` := the committed line numbers carried by the list elements, in order;
   `IdsDistinct items` := `(idsOf items).Nodup`; `IdsSub new old` := `(idsOf new).Sublist (idsOf old)`;
+* `Plain cfg ls` := no line of `ls` starts a banner and, under syntax ios, none starts a macro
+  (then the final parents are C02's `specParent`); `shiftAfter e p` := `if p ≤ e then p else p + 1`;
+  `rank keep j` := number of kept positions below `j` (`Ccp.Proofs.EditLinks`);
 * `Forest`, `ancestors` are the C03 vocabulary.
 
 All theorems are about `Ccp.Model.Edit.step`, for all states and payloads.  A state holds
@@ -313,6 +316,48 @@ theorem delete_spec_forest (s : S) (i : Nat) (hnf : NoFilter s) (hd : s.dirty = 
     simp [Edit.step, hg, edited_texts s hnf, eraseAll_map, items_map_text]
   rw [ht]
   exact ⟨delete_filter_forest hf s.texts i, delete_length_forest hf s.texts i hsz hi⟩
+
+/-- **`delete` keeps the parents of the surviving lines.**  State: no uncommitted change,
+C07's invariant, auto-commit on, blank lines kept, no banner / macro start in the config.
+With `dead` = line `i` and its descendants, `keep j` := `j ∉ dead` and `rank keep j` := the
+number of surviving lines before `j`: after `delete i` a surviving line `j` sits at
+`rank keep j` with its old text, its old parent survives too, and its new parent is the new
+position of its old parent — except possibly a comment whose directly preceding line was
+deleted (its attachment depends on the line above it, C02's legacy rule). -/
+theorem delete_keeps_parents (s : S) (i : Nat)
+    (hd : s.dirty = false) (hinv : FreshInv s) (ha : s.auto = true) (hig : s.cfg.ignoreBlank = false)
+    (hp : Plain s.cfg s.texts) (hi : i < s.texts.length) :
+    let dead := descendantsAndSelf s.tree i
+    let keep : Nat → Bool := fun j => !dead.contains j
+    let s' := (step s (.delete i)).1
+    s'.texts = eraseAll s.texts dead ∧
+    ∀ j, j < s.texts.length → keep j = true →
+      s'.texts[rank keep j]? = s.texts[j]? ∧
+      keep (parentOf s.tree j) = true ∧
+      (¬ (isComment s.cfg (s.texts.getD j []) = true ∧ ∃ j', j = j' + 1 ∧ keep j' = false) →
+        parentOf s'.tree (rank keep j) = rank keep (parentOf s.tree j)) := by
+  intro dead keep s'
+  obtain ⟨htree, _, _⟩ := hinv hd
+  have hg : ¬ (s.dirty = true ∨ s.items.length ≤ i) := by rw [hd, ← texts_length]; simp; omega
+  have hstep : (step s (.delete i)).1
+      = autoCommit { s with items := eraseAll s.items (descendantsAndSelf s.tree i), dirty := true } := by
+    simp [Edit.step, hg]
+  have hnew : (eraseAll s.items (descendantsAndSelf s.tree i)).map Item.text = eraseAll s.texts dead := by
+    rw [eraseAll_map, items_map_text]
+  have htree' : s'.tree = parse s.cfg (eraseAll s.texts dead) := by
+    show (step s (.delete i)).1.tree = _
+    rw [hstep, auto_tree_after s ha, hnew]
+  have htexts' : s'.texts = eraseAll s.texts dead := by
+    show (step s (.delete i)).1.texts = _
+    rw [hstep, edited_texts s (.inr hig), hnew]
+  have hmain := parse_delete s.cfg s.texts i hp hig
+  simp only at hmain
+  rw [← htree] at hmain
+  refine ⟨htexts', fun j hj hkj => ?_⟩
+  obtain ⟨r1, r2, r3⟩ := hmain.2 j hj hkj
+  rw [hmain.1] at r1
+  refine ⟨by rw [htexts']; exact r1, r2, fun hex => ?_⟩
+  rw [htree']; exact r3 hex
 
 /-! ## replace_text / re_sub -/
 
@@ -688,6 +733,15 @@ example : posOf exOn.items 0 = some 0 ∧
 example : allChildren exOn.tree 1 = [2] ∧ allChildren exOn.tree 0 = [1, 2, 3] ∧
     (step exOn (.delete 1)).1.texts =
       ["interface Eth1".toList, " shutdown".toList, "interface Eth10".toList] := by decide
+/-- `delete_keeps_parents` on an example: deleting line 1 (and its child 2) — `shutdown`
+moves from 3 to 1 and keeps parent 0, `Eth10` moves from 4 to 2 and stays a root -/
+example : rank (fun j => !(descendantsAndSelf exOn.tree 1).contains j) 3 = 1 ∧
+    rank (fun j => !(descendantsAndSelf exOn.tree 1).contains j) 4 = 2 ∧
+    (step exOn (.delete 1)).1.tree.parents = [0, 0, 2] := by decide
+/-- the exclusion is needed: a comment that was a root because it sat under a deeper line
+gets attached when that line is deleted -/
+example : let s := init exCfg true 1 ["r".toList, " a".toList, "  b".toList, " !x".toList]
+    s.tree.parents = [0, 0, 1, 3] ∧ (step s (.delete 2)).1.tree.parents = [0, 0, 0] := by decide
 /-- replace_text / re_sub on line 4; an unchanged substitution is a no-op -/
 example : (step exOn (.replaceText 4 "Eth1".toList "Po".toList)).1.texts[4]? = some "interface Po0".toList ∧
     (step exOn (.reSub 4 "interface Po1".toList)).1.texts[4]? = some "interface Po1".toList ∧
